@@ -8,7 +8,8 @@ class PROP(Prop):
     id = "C11"
     profiles = ["debug"]
     rule = ("RTU server and client: pipelined clean streams of supported requests/responses for all slave ids under random chunkings, byte-wise "
-            "delivery and ALL compositions of short streams; noise strings over {0x00,0x80,0x41-0x48,0x64-0x6E} of length 0..=16 (and up to 40 to "
+            "delivery and ALL compositions of short streams; every payload length of every variable-size request and response (all in thorough, all "
+            ">= 200 bytes plus a sample in quick); noise strings over {0x00,0x80,0x41-0x48,0x64-0x6E} of length 0..=16 (and up to 40 to "
             "probe the limit, compared with the model only) before a valid frame whose slave id is a noise value, under random chunkings, one chunk, "
             "byte-wise; long noise (up to 300 bytes) arriving byte by byte.  Oracle: every clean frame delivered once in order; frame after "
             "admissible noise delivered.  non-trivial = >= 2 frames, a split frame, or noise present")
@@ -28,6 +29,37 @@ class PROP(Prop):
             stream = b"".join(frames)
             for parts in mb.chunkings(stream, rng, 2) + [[stream]] + ([[stream[i:i + 1] for i in range(len(stream))]] if len(stream) < 120 else []):
                 cs.append(Case("SRV rtu %s - - -" % mb.rscript(parts), {"k": "srv_clean", "exp": exp + ["WAIT"], "nparts": len(parts), "nframes": k}))
+        # EVERY payload length of the variable-size requests (complete sweep of the byte-count arithmetic of the request table),
+        # each between two small frames so that a lost frame or a lost successor shows
+        small1, small2 = mb.rtu_frame(0x11, b"\x11"), mb.rtu_frame(0x22, b"\x03\x00\x01\x00\x02")
+        big = [("WMR", rng.randrange(65536), [rng.randrange(65536) for _ in range(q)]) for q in range(1, 124)]
+        big += [("WMC", rng.randrange(65536), [rng.random() < 0.5 for _ in range(8 * bc - rng.randrange(0, 8))]) for bc in range(1, 247)]
+        big += [("RWMR", rng.randrange(65536), rng.randrange(1, 126), rng.randrange(65536), [rng.randrange(65536) for _ in range(q)]) for q in range(1, 122)]
+        if tier == "quick":
+            big = [r for r in big if mb.spec_req_size(r) >= 200 or rng.random() < 0.2]
+        for req in big:
+            if mb.spec_req_size(req) > 253:
+                continue
+            slave = rng.randrange(256)
+            stream = small1 + mb.rtu_frame(slave, mb.spec_req_pdu(req)) + small2
+            parts = rng.choice([[stream], mb.chunkings(stream, rng, 1)[0], [stream[:7], stream[7:100], stream[100:]]])
+            cs.append(Case("SRV rtu %s - - -" % mb.rscript(parts), {"k": "srv_clean", "exp": ["C:17:RSI", "C:%d:%s" % (slave, mb.show_req(req)), "C:34:RHR:1:2", "WAIT"], "nparts": len(parts), "nframes": 3}))
+        # EVERY payload length of the variable-size responses, client side
+        bigr = [(("RHR", 1, q), ("RHR", [rng.randrange(65536) for _ in range(q)])) for q in range(1, 126)]
+        bigr += [(("RIR", 1, q), ("RIR", [rng.randrange(65536) for _ in range(q)])) for q in range(1, 126)]
+        bigr += [(("RWMR", 1, q, 2, [7]), ("RWMR", [rng.randrange(65536) for _ in range(q)])) for q in range(1, 126)]
+        bigr += [((k, 1, 8 * bc), (k, [rng.random() < 0.5 for _ in range(8 * bc)])) for bc in range(1, 251) for k in ("RC", "RDI")]
+        bigr += [(("RSI",), ("RSI", rng.randrange(256), rng.random() < 0.5, bytes(rng.randrange(256) for _ in range(n)))) for n in range(0, 250)]
+        if tier == "quick":
+            bigr = [x for x in bigr if mb.spec_rsp_size(x[1]) >= 235 or rng.random() < 0.12]
+        for req, rsp in bigr:
+            if mb.spec_rsp_size(rsp) > 253:
+                continue
+            slave = rng.randrange(256)
+            fr = mb.rtu_frame(slave, mb.spec_rsp_pdu(rsp))
+            parts = rng.choice([[fr], mb.chunkings(fr, rng, 1)[0], [fr[:3], fr[3:]]])
+            cs.append(Case(cligen.cli_line("rtu", slave, [cligen.call_op(req, R=mb.rscript(parts))]),
+                           {"k": "cli_clean", "want": "OK:" + mb.show_rsp(mb.pad_rsp(rsp)), "nparts": len(parts), "nframes": 1}))
         # all compositions of short streams
         f = mb.rtu_frame(0x11, b"\x11")            # 4 bytes
         g = mb.rtu_frame(0x22, b"\x03\x00\x01\x00\x02")   # 8 bytes
